@@ -238,11 +238,10 @@ def rule_gate_name(ctx):
                       "the vDSO address is auxv.get_linux_gate_address()", "vDSO address comes from %s" % show(g)[:100])
 
 
-def rule_deleted_suffix(ctx):
+def rule_deleted_suffix(ctx, R="C13/deleted-suffix"):
     """'same name' in the merge rule is equality of the names aggregate() stores, i.e. of sanitize_path(name): the kernel appends
     exactly ONE ' (deleted)' marker to the path of an unlinked file, so exactly one is removed — removing more (or anything else)
     makes two different files compare equal and lets their lines merge"""
-    R = "C13/deleted-suffix"
     b = ctx.body(R, "linux::maps_reader::sanitize_path")
     if b is None:
         return
@@ -350,8 +349,38 @@ def rule_name_conversion(ctx, R="C13/name-conversion"):
                   "the data of kind %s (%s) does not reach its derived name: different lines of that kind compare equal" % (var, why))
 
 
+def rule_compare_as_stored(ctx, R="C13/compare-as-stored"):
+    """`same name` compares a line's name with the name stored for an earlier line, so the line's name must be in the form in which
+    it would itself be stored: the left operand of every name comparison in aggregate is the very value that `name:` of a newly
+    pushed mapping receives (a transformation applied only on one side — e.g. stripping ' (deleted)' only when storing — makes equal
+    names compare unequal)."""
+    b = ctx.body(R, "MappingInfo::aggregate")
+    if b is None:
+        return
+    o = Origin(b)
+    eqs = [(bi, o.call_args(bi)) for bi, t in b.calls(lambda c: (c.short or "").split("::")[-1] in ("eq", "ne") and "OsStr" in (c.inst or ""))]
+    stored = []
+    for bi, blk in enumerate(b.blocks):
+        for si, st in enumerate(blk["stmts"]):
+            if st["k"] == "assign" and st["r"]["k"] == "agg" and norm(st["r"].get("adt") or "").endswith("maps_reader::MappingInfo"):
+                e = o._rvalue(st["r"], (bi, si), 0)
+                stored.append((bi, si, dict(e[3]).get("name")))
+    ctx.floor(R, "name comparisons in aggregate", len(eqs), 2)
+    ctx.floor(R, "MappingInfo constructions in aggregate", len(stored), 1)
+    for k, (bi, a) in enumerate(eqs):
+        sides = [nosite(strip(x)) for x in a[:2]]
+        ok = any(nm is not None and nosite(strip(nm)) in sides for (_, _, nm) in stored)
+        other = [x for x in a[:2] if not any(nm is not None and nosite(strip(nm)) == nosite(strip(x)) for (_, _, nm) in stored)]
+        okp = len(other) == 1 and core(other[0])[0] == "field" and core(other[0])[2] == "name"
+        ctx.check(ok and okp, R, ("comparison", k + 1), b.where(bi), "the line's name is compared, in the form in which it is stored, with the stored name of an earlier mapping",
+                  "a name comparison does not compare the to-be-stored name with a stored name: %s vs %s" % (show(a[0])[:70], show(a[1])[:70]))
+
+
 def run(ctx):
+    rule_compare_as_stored(ctx)
     rule_name_conversion(ctx)
+    from rules import c18
+    c18.rule_auxv_pairs(ctx, R="C13/auxv-pairs")   # the vDSO address is the value of the AT_SYSINFO_EHDR pair
     from rules import preds
     preds.run(ctx, PROPERTY, ['is_executable', 'is_empty_page', 'is_mapping_a_path', 'auxv_is_complete'])   # the opaque predicates these rules lean on, against oracle tables
     rule_merges(ctx)
